@@ -1,6 +1,7 @@
 package props
 
 import (
+	"math"
 	"bytes"
 	"encoding/json"
 	"fmt"
@@ -350,6 +351,35 @@ func runC17(c *fw.Case) {
 		}
 		if res.Err == nil {
 			c.Fail("undeclared-constant-accepted:"+cmp, "%s on a declared enum returned no Err (%d rows)", desc, res.Len())
+		}
+		// the same leaf in other positions of a clause: next to a leaf that already decides every row (all rows selected
+		// in an Or, no row left in an And), negated, nested; and on an empty frame
+		leaf := qframe.Filter{Column: "e", Comparator: cmp, Arg: "not-a-declared-value", Inverse: inv}
+		allRows := qframe.Filter{Column: model.IDCol, Comparator: ">=", Arg: math.MinInt64}
+		noRows := qframe.Filter{Column: model.IDCol, Comparator: "<", Arg: math.MinInt64}
+		forms := []struct {
+			name string
+			cl   qframe.FilterClause
+		}{
+			{"Or(all rows, leaf)", qframe.Or(allRows, leaf)}, {"Or(no rows, leaf)", qframe.Or(noRows, leaf)}, {"Or(leaf, all rows)", qframe.Or(leaf, allRows)},
+			{"And(no rows, leaf)", qframe.And(noRows, leaf)}, {"And(all rows, leaf)", qframe.And(allRows, leaf)}, {"And(leaf, no rows)", qframe.And(leaf, noRows)},
+			{"Not(leaf)", qframe.Not(leaf)}, {"Or(all rows, And(no rows, leaf))", qframe.Or(allRows, qframe.And(noRows, leaf))}, {"Not(And(no rows, Or(all rows, leaf)))", qframe.Not(qframe.And(noRows, qframe.Or(allRows, leaf)))},
+		}
+		fm := forms[rng.Intn(len(forms))]
+		for _, target := range []struct {
+			name string
+			qf   qframe.QFrame
+		}{{"the frame", dq}, {"the frame sliced to no rows", dq.Slice(0, 0)}} {
+			c.Eval(1)
+			c.Count("undeclared_constant_filters_nested", 1)
+			var r2 qframe.QFrame
+			d2 := fmt.Sprintf("Filter(%s) with leaf %s on %s", fm.name, desc, target.name)
+			if !c.GuardFail("filter-undeclared", d2, func() { r2 = target.qf.Filter(fm.cl) }) {
+				continue
+			}
+			if r2.Err == nil {
+				c.Fail("undeclared-constant-accepted:nested:"+cmp, "%s returned no Err (%d rows)", d2, r2.Len())
+			}
 		}
 	}
 	// --- sort follows declared order
